@@ -3,10 +3,11 @@ import Infretis.Model.Template
 import Infretis.Model.TemplateCp2k
 import Infretis.Model.Codec
 import Infretis.Model.CodecLmp
+import Infretis.Model.CodecBox
 open Infretis.Proto
 
 /-- dispatch over the part models of C19 (each answers `none` for ops that are not its own):
-    `mdp…`/`wfr…` Template, `cp2k…` TemplateCp2k, `g96…`/`xyz…` Codec, `lmp…`/`trr…` CodecLmp -/
+    `mdp…`/`wfr…` Template, `cp2k…` TemplateCp2k, `g96…`/`xyz…` Codec, `lmp…`/`trr…` CodecLmp, `box…` CodecBox -/
 def handle (toks : List String) : String :=
   match Infretis.Template.handle toks with
   | some r => r
@@ -18,6 +19,9 @@ def handle (toks : List String) : String :=
   | some r => r
   | none =>
   match Infretis.Lmp.handle toks with
+  | some r => r
+  | none =>
+  match Infretis.Box.handle toks with
   | some r => r
   | none => "bad-op"
 
